@@ -322,7 +322,8 @@ int vrt_state_seen(unsigned long key, int remaining)
 	unsigned long h;
 	int n;
 
-	if (!vrt_seen_tab || g_noprune)
+	res->used_seen = 1;
+	if (!vrt_seen_tab || g_noprune || vrt_seen_unavailable)
 		return 0;
 	/* the remaining budgets are part of the state: equal program states with different budgets
 	 * left have different sets of explored futures */
